@@ -44,29 +44,30 @@ def gen_sub(rng, allow_special=True):
 
 
 def gen_values(rng, subs, n_ids):
-    """population vector, bottom-level matrix, upstream matrix"""
+    """population vector, bottom-level matrix, upstream matrix (and covariates in the attribute gen_values.chis)"""
+    n_cov = sum(s.n_cov() for s in subs)
+    chis = [[core.dyadic(rng, -4, 8, 8) for _ in range(n_cov)] for _ in range(n_ids)] if n_cov else None
     theta, X = [], [[None] * popspec.total_dims(subs) for _ in range(n_ids)]
     for s, (d0, p0, c0) in zip(subs, popspec.slices(subs)):
         if s.kind in ('G', 'LN', 'TG'):
-            mus = [core.dyadic(rng, 1, 24, 8) for _ in range(s.nd)]
-            sgs = [core.dyadic(rng, 2, 16, 8) for _ in range(s.nd)]
-            theta += mus + sgs
-            for i in range(n_ids):
-                for d in range(s.nd):
-                    X[i][d0 + d] = core.dyadic(rng, 1, 32, 8) if s.centered else core.dyadic(rng, -16, 16, 8)
+            mus = [core.dyadic(rng, 8, 24, 8) for _ in range(s.nd)]
+            sgs = [core.dyadic(rng, 4, 16, 8) for _ in range(s.nd)]
+            th = mus + sgs
         elif s.kind == 'P':
-            vals = [core.dyadic(rng, 1, 24, 8) for _ in range(s.nd)]
-            theta += vals
-            for i in range(n_ids):
-                for d in range(s.nd):
-                    X[i][d0 + d] = vals[d]
+            th = [core.dyadic(rng, 1, 24, 8) for _ in range(s.nd)]
         else:
-            vals = [[core.dyadic(rng, 1, 24, 8) for _ in range(s.nd)] for _ in range(s.n_het)]
-            theta += [v for row in vals for v in row]
-            for i in range(n_ids):
-                for d in range(s.nd):
-                    X[i][d0 + d] = vals[i][d]
+            th = [core.dyadic(rng, 1, 24, 8) + 0.125 * k for k in range(s.n_het * s.nd)]
+        th += [core.dyadic(rng, -2, 2, 16) for _ in range(len(s.selection()) * s.n_cov())]
+        theta += th
+        for i in range(n_ids):
+            ch = chis[i][c0:c0 + s.n_cov()] if chis else None
+            for d in range(s.nd):
+                if s.special():
+                    X[i][d0 + d] = s.par_value(th, s.het_row(i), d, i, ch)
+                else:
+                    X[i][d0 + d] = core.dyadic(rng, 1, 32, 8) if s.centered else core.dyadic(rng, -16, 16, 8)
     U = [[core.dyadic(rng, -16, 16, 8) for _ in range(popspec.total_dims(subs))] for _ in range(n_ids)]
+    gen_values.chis = chis
     return theta, X, U
 
 
@@ -78,7 +79,10 @@ def gen_case(rng):
         for _ in range(rng.choice([2, 3])):
             kind, nd, centered = gen_sub(rng)
             nd = min(nd, 2)
-            subs.append({'kind': kind, 'nd': nd, 'centered': centered, 'n_het': n_ids if kind == 'H' else None})
+            d = {'kind': kind, 'nd': nd, 'centered': centered, 'n_het': n_ids if kind == 'H' else None}
+            if rng.random() < 0.35:
+                d['cov'] = {'n_cov': rng.choice([1, 2]), 'sel': None if rng.random() < 0.5 else [[0, 0]]}
+            subs.append(d)
         layout = 'flat'
     else:
         kind, nd, centered = gen_sub(rng)
@@ -93,7 +97,7 @@ def gen_case(rng):
                 X[0][d0] += 0.5
                 break
     return {'subs': subs, 'composed': composed, 'n_ids': n_ids, 'layout': layout, 'theta': theta, 'X': X,
-            'U': U if rng.random() < 0.7 else None, 'mismatch': mismatch}
+            'U': U if rng.random() < 0.7 else None, 'mismatch': mismatch, 'chis': gen_values.chis}
 
 
 def layout_params(case, S, layout):
@@ -120,16 +124,17 @@ def run_chi(case, layout=None):
     X = np.array(case['X'], dtype=float)
     U = None if case['U'] is None else np.array(case['U'], dtype=float)
     before = (par.copy(), X.copy(), None if U is None else U.copy())
-    out = {'ll': float(m.compute_log_likelihood(par, X))}
+    kw = {} if case.get('chis') is None else {'covariates': np.array(case['chis'], dtype=float)}
+    out = {'ll': float(m.compute_log_likelihood(par, X, **kw))}
     if layout != 'tensor' or S[0].kind != 'H' or True:
         try:
-            out['psi'] = np.asarray(m.compute_individual_parameters(par, X), dtype=float).tolist()
+            out['psi'] = np.asarray(m.compute_individual_parameters(par, X, **kw), dtype=float).tolist()
         except NotImplementedError:
             out['psi'] = 'NotImplementedError'
     forms = {}
-    r = m.compute_sensitivities(par, X, dlogp_dpsi=None if U is None else U.copy())
+    r = m.compute_sensitivities(par, X, dlogp_dpsi=None if U is None else U.copy(), **kw)
     forms['flattened'] = (float(r[0]), np.asarray(r[1], dtype=float).tolist(), np.asarray(r[2], dtype=float).tolist())
-    r = m.compute_sensitivities(par, X, dlogp_dpsi=None if U is None else U.copy(), reduce=True)
+    r = m.compute_sensitivities(par, X, dlogp_dpsi=None if U is None else U.copy(), reduce=True, **kw)
     forms['reduce'] = (float(r[0]), np.asarray(r[1], dtype=float).tolist())
     if not case['composed']:
         r = m.compute_sensitivities(par, X, dlogp_dpsi=None if U is None else U.copy(), flattened=False)
@@ -148,7 +153,8 @@ def expected(case):
     """Coq expressions for every output; None where the value is a point-mass decision."""
     S = [Sub(**d) for d in case['subs']]
     theta, X, U, n = case['theta'], case['X'], case['U'], case['n_ids']
-    score, ok = popspec.score_expr(S, theta, X, None)
+    chis = case.get('chis')
+    score, ok = popspec.score_expr(S, theta, X, chis)
     dpsi = [[None] * popspec.total_dims(S) for _ in range(n)]
     dtheta_flat, psi = [], [[None] * popspec.total_dims(S) for _ in range(n)]
     separate = None
@@ -158,21 +164,18 @@ def expected(case):
         th = theta[p0:p0 + s.n_par()]
         xs = [row[d0:d0 + s.nd] for row in X]
         us = None if U is None else [[coqR(v) for v in row[d0:d0 + s.nd]] for row in U]
+        ch = [chis[i][c0:c0 + s.n_cov()] for i in range(n)] if chis else None
         for i in range(n):
             for d in range(s.nd):
-                dpsi[i][d0 + d] = s.dbottom_expr(th, i, d, xs[i][d], us[i][d] if us else None, None)
-                psi[i][d0 + d] = s.psi_expr(th, i, d, xs[i][d], None) if not s.centered or s.special() \
-                    else coqR(xs[i][d])
+                dpsi[i][d0 + d] = s.dbottom_expr(th, i, d, xs[i][d], us[i][d] if us else None, ch[i] if ch else None)
+                psi[i][d0 + d] = s.psi_expr(th, i, d, xs[i][d], ch[i] if ch else None) \
+                    if not s.centered or s.special() else coqR(xs[i][d])
+        flat = s.dtheta_flat_exprs(th, xs, us, ch)
+        red_top += flat
         if s.special():
             dtheta_flat += ['0'] * s.n_par()
-            if s.kind == 'P':
-                red_top += [plus([us[i][d] if us else '0' for i in range(n)]) for d in range(s.nd)]
-            else:
-                red_top += [us[i][d] if us else '0' for i in range(n) for d in range(s.nd)]
         else:
-            flat = s.dtheta_flat_exprs(th, xs, us, None)
             dtheta_flat += flat
-            red_top += flat
             for i in range(n):
                 red_bottom[i] += [dpsi[i][d0 + d] for d in range(s.nd)]
             if not case['composed']:
@@ -237,22 +240,25 @@ def shape_problem(case, res, exp):
 # oracle
 # ------------------------------------------------------------------------------------------------
 
-def ref_score(S, theta, X):
+def ref_score(S, theta, X, chis=None):
     from scipy import stats
     tot = 0.0
     for s, (d0, p0, c0) in zip(S, popspec.slices(S)):
         th = theta[p0:p0 + s.n_par()]
         for i in range(len(X)):
+            ch = chis[i][c0:c0 + s.n_cov()] if chis else None
             for d in range(s.nd):
                 x = X[i][d0 + d]
                 if s.special():
-                    if x != th[(i if s.kind == 'H' else 0) * s.nd + d]:
+                    if x != s.par_value(th, s.het_row(i), d, i, ch):
                         return -math.inf
                     continue
                 if not s.centered:
                     tot += stats.norm.logpdf(x)
                     continue
-                mu, sg = th[d], th[s.nd + d]
+                mu, sg = s.par_value(th, 0, d, i, ch), s.par_value(th, 1, d, i, ch)
+                if sg <= 0:
+                    return -math.inf
                 if s.kind == 'G':
                     tot += stats.norm.logpdf(x, mu, sg)
                 elif s.kind == 'LN':
@@ -272,7 +278,7 @@ def oracle(case):
     sp = shape_problem(case, res, exp)
     if sp:
         return sp
-    ref = ref_score(S, case['theta'], case['X'])
+    ref = ref_score(S, case['theta'], case['X'], case.get('chis'))
     scores = [res['ll']] + [f[0] for f in res['forms'].values()]
     for v in scores:
         if (ref == -math.inf) != (v == -math.inf) or (ref != -math.inf and core.relerr(v, ref) > 1e-9):
@@ -295,12 +301,14 @@ def oracle(case):
     theta0, X0 = np.array(case['theta'], dtype=float), np.array(case['X'], dtype=float)
     U = np.zeros_like(X0) if case['U'] is None else np.array(case['U'], dtype=float)
 
+    kw = {} if case.get('chis') is None else {'covariates': np.array(case['chis'], dtype=float)}
+
     def total(theta, X):
         try:
-            psi = np.asarray(m.compute_individual_parameters(theta, X), dtype=float)
+            psi = np.asarray(m.compute_individual_parameters(theta, X, **kw), dtype=float)
         except NotImplementedError:
             psi = X
-        return float(m.compute_log_likelihood(theta, X)) + float(np.sum(U * psi))
+        return float(m.compute_log_likelihood(theta, X, **kw)) + float(np.sum(U * psi))
 
     def fd(f):
         h = 1e-4
@@ -350,7 +358,9 @@ def oracle(case):
             if sp is not None:
                 s, p0, dl = sp
                 for i in range(n):
-                    X[i, d] = th[p0 + (i if s.kind == 'H' else 0) * s.nd + dl]
+                    _, _, c0 = [sl for ss, sl in zip(S, popspec.slices(S)) if ss is s][0]
+                    ch = case['chis'][i][c0:c0 + s.n_cov()] if case.get('chis') else None
+                    X[i, d] = s.par_value(list(th[p0:p0 + s.n_par()]), s.het_row(i), dl, i, ch)
         return th, X
     v0 = np.array([X0[i, d] for i, d in free] + list(theta0), dtype=float)
     red = np.asarray(res['forms']['reduce'][1], dtype=float)
